@@ -511,6 +511,38 @@ def _establish(ctx: Ctx) -> None:
                f"{cls}.{attr} is allocated with n_items cells" if ok else
                f"{cls}.{attr}: allocation with n_items cells not found",
                construct=f"len({attr}) = n_items")
+    # ---- wrappers bind scratch / matrix fields to the kernel parameter of
+    # the same name (a swap of two equally typed arrays would still run)
+    n_bind = 0
+    for k in repo.kernels():
+        pn = [p_.strip("_") for p_ in k.params]
+        for mod in repo.modules.values():
+            if not mod.name.startswith("moptipyapps."):
+                continue
+            for fi in mod.funcs.values():
+                if fi.njit is not None:
+                    continue
+                for c in ast.walk(fi.node):
+                    if not (isinstance(c, ast.Call) and isinstance(
+                            c.func, ast.Name)):
+                        continue
+                    if repo.resolve(mod, c.func.id) is not k:
+                        continue
+                    for pos, a in enumerate(c.args):
+                        if isinstance(a, ast.Attribute):
+                            fld = a.attr.strip("_")
+                            if fld in pn and pos < len(pn):
+                                n_bind += 1
+                                okb = pn[pos] == fld
+                                ctx.ob(R, fi, c, okb,
+                                       f"{fi.qualname}: field `{a.attr}` is "
+                                       f"passed as parameter `{k.params[pos]}`"
+                                       f" of {k.name}" + ("" if okb else
+                                       f" although the kernel has a "
+                                       f"parameter named `{fld}`: swapped "
+                                       "arguments"),
+                                       construct=f"{k.name} arg {fld}")
+    ctx.count("kernel_field_bindings", n_bind)
     # ---- shapes of Packing and GamePlan
     for modn, cls, want_src in (
             (M + "binpacking2d.packing", "Packing",
